@@ -186,6 +186,7 @@ def r3_pause_resume(prog, rep: Report, pf: PoolFacts):
     for f0 in pf.consumers:
         # the consumer with the pool's private helpers inlined (sa/inline.py): the flow control may live in a helper
         f = prog.method_view(f0.cls, f0.name) if f0.cls is not None else f0
+        f = _without_mirror_flags(f, waited)
         from ..flow import Flow as _Flow
         vflow = _Flow(f.node)
         for n in ast.walk(f.node):
@@ -420,6 +421,87 @@ def _drained_counterexample(conds, ev_path, bounds, fixed_bound=None, flow=None)
                     extra = "".join(f", `{k}` being {v}" for k, v in fr.items())
                     return (f"with bound {b}, len(buffer) = 0 and the event clear{extra}, the guard `{src(t)}` is {got}")
     return ""
+
+
+def _without_mirror_flags(f: Func, events) -> Func:
+    """A boolean local that mirrors an event the consumer alone clears and sets (`paused = False` before the loop, `paused = True`
+    next to every `<ev>.clear()`, `paused = False` next to every `<ev>.set()`) *is* `not <ev>.is_set()`.  Tests on it are rewritten
+    to that, `if not paused: <ev>.clear(); paused = True` becomes the bare clear (clearing a cleared event is a no-op) and the
+    stores are dropped, so that the rule reads the protocol it knows.  Returns ``f`` itself when there is no such flag."""
+    import copy
+    from ..model import set_parents
+    evcalls = {}
+    for n in ast.walk(f.node):
+        if isinstance(n, ast.Call) and isinstance(n.func, ast.Attribute) and n.func.attr in ("clear", "set"):
+            d = dotted(n.func.value)
+            if d and d[-1] in events:
+                evcalls.setdefault(d, []).append(n)
+    if len(evcalls) != 1:
+        return f
+    evpath, sites = next(iter(evcalls.items()))
+
+    def block_of(n):
+        st = n
+        while st is not None and not isinstance(st, ast.stmt):
+            st = getattr(st, "_parent", None)
+        par = getattr(st, "_parent", None)
+        for fld in ("body", "orelse", "finalbody"):
+            lst = getattr(par, fld, None)
+            if isinstance(lst, list) and st in lst:
+                return lst
+        return None
+    flags = None
+    for c in sites:
+        blk = block_of(c) or []
+        want = c.func.attr == "clear"
+        here = {st.targets[0].id for st in blk if isinstance(st, ast.Assign) and len(st.targets) == 1 and isinstance(st.targets[0], ast.Name)
+                and isinstance(st.value, ast.Constant) and st.value.value is want}
+        flags = here if flags is None else flags & here
+    if not flags or len(flags) != 1:
+        return f
+    flag = next(iter(flags))
+    # every other store of the flag is the initial `flag = False` outside the loops
+    for n in ast.walk(f.node):
+        if isinstance(n, ast.Name) and n.id == flag and isinstance(n.ctx, ast.Store):
+            st = getattr(n, "_parent", None)
+            if not (isinstance(st, ast.Assign) and isinstance(st.value, ast.Constant) and isinstance(st.value.value, bool)):
+                return f
+            blk = block_of(st)
+            near = blk is not None and any(isinstance(x, ast.Call) and x in sites for s2 in blk for x in ast.walk(s2))
+            if not near and st.value.value is not False:
+                return f
+    node = copy.deepcopy(f.node)
+    is_set = ast.parse(".".join(evpath) + ".is_set()", mode="eval").body
+
+    class Rw(ast.NodeTransformer):
+        def visit_Name(self, n):
+            if n.id == flag and isinstance(n.ctx, ast.Load):
+                return ast.copy_location(ast.UnaryOp(op=ast.Not(), operand=copy.deepcopy(is_set)), n)
+            return n
+
+        def visit_Assign(self, n):
+            if len(n.targets) == 1 and isinstance(n.targets[0], ast.Name) and n.targets[0].id == flag:
+                return None
+            return self.generic_visit(n)
+
+        def visit_If(self, n):
+            self.generic_visit(n)
+            if not n.body:
+                n.body = [ast.copy_location(ast.Pass(), n)]
+            # if not <flag>: <ev>.clear()   ->   <ev>.clear()         (and the same for set under `if <flag>` is kept: it is the resume)
+            t = n.test
+            if isinstance(t, ast.UnaryOp) and isinstance(t.op, ast.Not) and isinstance(t.operand, ast.UnaryOp) \
+                    and isinstance(t.operand.op, ast.Not) and src(t.operand.operand) == src(is_set) and not n.orelse \
+                    and all(isinstance(x, ast.Expr) and isinstance(x.value, ast.Call) and isinstance(x.value.func, ast.Attribute)
+                            and x.value.func.attr == "clear" for x in n.body):
+                return n.body
+            return n
+    node = Rw().visit(node)
+    ast.fix_missing_locations(node)
+    set_parents(node)
+    g = copy.copy(f)
+    g.node = node
+    return g
 
 
 def _enclosing_if(n):
